@@ -29,6 +29,8 @@ WireViol(e, fx, gated) ==
           THEN {IF gated THEN "C07/frontend/gated-call-reached-wire/" \o e.op ELSE "C02/rejected-call-reached-wire/" \o tag}
           ELSE {})
          \cup (IF e.res = "ok" THEN {IF gated THEN "C07/frontend/gated-call-succeeded/" \o e.op ELSE "C02/invalid-call-accepted/" \o tag} ELSE {})
+    \* (a peer that had gone before the call receives nothing: there is no wire image to judge)
+    ELSE IF e.peer = "gone" THEN (IF e.nwire # 0 THEN {"C01/frontend/messages-on-wire=" \o Str(e.nwire) \o "/" \o tag \o "/peer-gone"} ELSE {})
     ELSE IF e.nwire # 1 \/ e.wire_leftover # 0 THEN {"C01/frontend/messages-on-wire=" \o Str(e.nwire) \o "/" \o tag}
     ELSE LET m == e.wire[1]
              form == IF e.op = "set_log_base" THEN LogBaseForm(fe, e.cls) ELSE ""
